@@ -50,6 +50,13 @@ MIN_BUDGET = 200
 MAXPAY = 65516
 
 
+FAULT_COUNTERS = {
+    "probe:eof_inside_frame": "stream EOF inside a frame",
+    "probe:reset_seen": "connection reset mid-stream",
+    "probe:frame_split_across_reads": "short read (frame split across reads)",
+}
+
+
 def budget(tier):
     return 4000 if tier == "quick" else 300000
 
